@@ -73,8 +73,24 @@ class C01(Prop):
         "autn_take6", "C01_res_star", "table_authenticationResponse", "C01_authentication_response_accepted",
         "C01_wrong_res_star_refused", "C01_registration_protected", "C01_suci", "C01_plmn", "C01_security_capability",
         "isMessage_of_shaped", "C01_ngap_initial_ue_message", "C01_ngap_uplink_nas_transport",
-        "C01_ngap_initial_context_setup_response", "C01_amf_sees_built_pdu", "C01_accepted_witness",
-    ]] + ["Stgutg.Proofs.Emulator." + t for t in ["protected_step", "receiveUl_of_receive", "amf_sees_built_pdu", "patchSchema_eq"]]
+        "C01_ngap_initial_context_setup_response", "C01_amf_sees_built_pdu", "C01_builder_seen",
+        "C01_ng_setup_request_seen", "C01_initial_ue_message_seen", "C01_uplink_nas_transport_seen",
+        "C01_initial_context_setup_response_seen", "C01_step_ng_setup_request", "C01_step_initial_ue_message",
+        "C01_step_uplink_nas_transport", "C01_step_initial_context_setup_response", "C01_step_authentication_response",
+        "onProtected_registrationComplete", "C01_step_registration_complete", "onRegistrationRequest_ok",
+        "C01_step_registration_request", "onProtected_securityModeComplete", "C01_step_security_mode_complete",
+        "run_clean_step", "C01_registration_script_accepted", "C01_subscriber_identified", "secCapVal_shape",
+        "registrationRequest_short", "C01_registration_accepted_for_config", "vector_resStar_length", "C01_keys_in_step", "C01_accepted_partial", "C01_accepted_for_downlink",
+        "C01_accepted_witness",
+    ]] + ["Stgutg.Proofs.Emulator." + t for t in ["protected_step", "receiveUl_of_receive", "amf_sees_built_pdu", "patchSchema_eq"]] + [
+        "Stgutg.Proofs.BuildersPath." + t for t in ["inRange_ngSetupRequest", "inRange_initialUEMessage",
+                                                    "inRange_uplinkNasTransport", "inRange_initialContextSetupResponse"]] + [
+        "Stgutg.Proofs.BuildersJudge." + t for t in ["skeleton_seen", "step_ngSetupRequest", "step_initialUEMessage",
+                                                     "step_uplinkNasTransport", "step_initialContextSetupResponse",
+                                                     "ngSetupRequest_wire", "initialUEMessage_wire", "uplinkNasTransport_wire",
+                                                     "initialContextSetupResponse_wire", "parse_header"]] + [
+        "Stgutg.Proofs.EmulatorSubscriber." + t for t in ["subscriberOf_eq", "suci_of_created_ue_short", "parse_length"]] + [
+        "Stgutg.Proofs.EmulatorRun." + t for t in ["manageNGSetup_run", "protect_ok", "registerUE_run", "emulate_run"]]
     domains = [Domain("convo-reg", 14, 80, tags="verif")]
     rule = ("convo-reg: whole NG Setup + registration conversations of the emulator in test mode against the scripted AMF of "
             "harness/peer (real NGAP/NAS built with free5gclib) over a SOCK_SEQPACKET socketpair: (proc) the procedures of package "
@@ -103,17 +119,41 @@ class C01(Prop):
                     "Registration Complete under header type 2 / COUNT 1 pass the reference AMF's NAS-security clause "
                     "(C01_registration_protected); SUCI and NG Setup PLMN identify the configured subscriber / PLMN (C01_suci, "
                     "C01_plmn); capability announces the selected algorithms; each NGAP message built in the exchange is the TS "
-                    "38.413 message of its step with mandatory IEs and the ids it was given (C01_ngap_*). NOT proved: the "
-                    "end-to-end composition C01_accepted_statement (judge (emulate cfg (dl cfg choices)) = accept): it needs the "
-                    "composite APER round trip on these PDUs (stated as AperRoundTripOn, the C04 obligation) and the NAS parse "
-                    "lemmas threaded through the judge's state machine; instead the executable reference AMF judges every real "
-                    "transcript of the correspondence run. Traffic mode (no -t) needs XDP and is neither modelled nor run.")
+                    "38.413 message of its step with mandatory IEs and the ids it was given (C01_ngap_*); for ALL in-range "
+                    "arguments (gNB id 22..32 bits, AMF-UE-NGAP-ID < 2^40, RAN-UE-NGAP-ID < 2^32, 3-octet PLMN, any NAS-PDU) the "
+                    "wrapper returns octets and the reference AMF decodes them to exactly the built PDU (C01_*_seen: the ConfPdu / "
+                    "regular hypotheses of C01_amf_sees_built_pdu are discharged by C13's static analysis). Threaded through the "
+                    "judge (Spec.Amf.step), message by message, each raising NO clause (NGAP and NAS) and moving the judge's state: "
+                    "NG SETUP REQUEST, REGISTRATION REQUEST in INITIAL UE MESSAGE, AUTHENTICATION RESPONSE, SECURITY MODE COMPLETE "
+                    "(header type 4, COUNT 0, MAC, container = complete Registration Request of the same subscriber), INITIAL "
+                    "CONTEXT SETUP RESPONSE, REGISTRATION COMPLETE (header type 2, COUNT 1, REGISTERED) - C01_step_*; and folded: "
+                    "C01_registration_script_accepted: Spec.Amf.judge = accept on the six-message uplink script of NG Setup + one "
+                    "registration, for all configurations and AMF choices in range (gNB id 22..32 bits, RAN-UE-NGAP-ID < 2^32, "
+                    "AMF-UE-NGAP-ID < 2^40, any SUCI / capability values announcing the selected algorithms, any RAND/SQN/keys). "
+                    "C01_registration_accepted_for_config: the same with the SUCI and capability the emulator really builds "
+                    "(CreateUE, EncodeSuci, GetUESecurityCapability) and the judge's subscriber identification proved "
+                    "(C01_subscriber_identified: the reference AMF's decimal arithmetic = the emulator's, distinct UEs have distinct "
+                    "MSINs), for every decimal IMSI configuration with a 2- or 3-digit MNC. C01_accepted_for_downlink / "
+                    "C01_accepted_partial (the former with every uplink-side hypothesis discharged): the statement "
+                    "THROUGH emulate for one registration - Proofs/EmulatorRun.lean executes the emulator model symbolically "
+                    "(manageNGSetup_run, registerUE_run, emulate_run: it writes exactly these six messages and completes) and "
+                    "judge (emulate cfg dls).uls = accept follows, with the DOWNLINK side as hypotheses (RegReads): the five "
+                    "downlink messages are decodable, the first DOWNLINK NAS TRANSPORT carries the chosen AMF-UE-NGAP-ID and an "
+                    "Authentication Request from whose AUTN/RAND DeriveRESstarAndSetKey obtains the vector's RES* and keys "
+                    "(C01_res_star proves that for the network's AUTN/RAND), PlainNasDecode/PlainNasEncode reproduce the two "
+                    "protected constructor outputs (C08). NOT proved, so C01_accepted_statement (judge (emulate cfg (dl cfg "
+                    "choices)) = accept for a specified downlink function dl) stays open: (a) a specification dl of the AMF's "
+                    "downlink octets with these properties proved; (b) more than one UE. The executable reference AMF judges "
+                    "every real transcript of the correspondence run; C01_accepted_witness evaluates one conversation in the kernel. "
+                    "Traffic mode (no -t) needs XDP and is neither modelled nor run.")
     level_text = ("Lean theorems for all configurations and AMF choices about an executable model of ManageNGSetup / RegisterUE / "
                   "test mode (per-clause composition of C05, C06, C11, C13, C16 against the reference AMF of Spec/Amf.lean); model "
                   "tied to the code by whole-conversation differential runs (real binary and in-process procedures); the "
                   "reference AMF judges every real transcript")
-    level_note = ("end-to-end acceptance is evaluated per transcript, not proved for all inputs; hand model tied differentially; "
-                  "the APER round trip on the emulator's PDUs is C04's obligation")
+    level_note = ("judge (emulate ...) = accept is a theorem for one registration, all configurations and AMF choices, with the "
+                  "downlink side (what the emulator reads) as explicit hypotheses; a specification of the AMF's downlink octets "
+                  "and N > 1 UEs are open; end-to-end acceptance is also evaluated per real transcript; hand model tied "
+                  "differentially")
     technique = "Lean 4 proof (per-clause) + whole-conversation correspondence + executable reference AMF as oracle"
 
     def key(self, op, impl, model, spec):
